@@ -1,5 +1,127 @@
-import ChumskyModel.Model.Spec
+/-
+  C03 — parse result contract: whole input, output/error consistency, lazy prefix.
+-/
+import ChumskyModel.Proofs.Lemmas.Top
+set_option linter.unusedSimpArgs false
 namespace Chumsky
-theorem placeholder_C03 : True := trivial
-#print axioms placeholder_C03
+
+/-- a result without output always carries at least one error (for every grammar, no hypothesis) -/
+theorem c03_no_output_has_error (n : Nat) (env : Env) (m : Mode) (g : G) (r : ParseResult) (f : St)
+    (h : parseTop n env m g = .result r f) (ho : r.output = none) : r.errs ≠ [] := by
+  unfold parseTop at h
+  cases hr : run n env m (.thenIgnore g .end_) St.init <;> simp [hr] at h
+  · obtain ⟨h1, _⟩ := h; subst h1; simp at ho
+  · obtain ⟨h1, _⟩ := h; subst h1; simp
+
+/-- an error-free result always has an output -/
+theorem c03_error_free_has_output (n : Nat) (env : Env) (m : Mode) (g : G) (r : ParseResult) (f : St)
+    (h : parseTop n env m g = .result r f) (he : r.errs = []) : r.output.isSome = true := by
+  cases ho : r.output with
+  | some v => rfl
+  | none => exact absurd he (c03_no_output_has_error n env m g r f h ho)
+
+/-- a result with errors never converts to `Ok` via `into_result` -/
+theorem c03_errors_never_ok (r : ParseResult) (he : r.errs ≠ []) : ∃ es, r.intoResult = .error es := by
+  unfold ParseResult.intoResult
+  cases h : r.errs with
+  | nil => exact absurd h he
+  | cons e es => exact ⟨e :: es, by simp [h]⟩
+
+/-- an error-free result converts to `Ok(output)` -/
+theorem c03_error_free_ok (n : Nat) (env : Env) (m : Mode) (g : G) (r : ParseResult) (f : St)
+    (h : parseTop n env m g = .result r f) (he : r.errs = []) : ∃ v, r.output = some v ∧ r.intoResult = .ok v := by
+  have := c03_error_free_has_output n env m g r f h he
+  cases ho : r.output with
+  | none => simp [ho] at this
+  | some v => exact ⟨v, rfl, by simp [ParseResult.intoResult, he, ho]⟩
+
+/-- what `pegTop` succeeding means: the grammar itself matched from position 0 and no token is left -/
+theorem pegTop_ok (n : Nat) (env : Env) (g : G) {v s em} (h : pegTop n env g = .ok v s em) :
+    ∃ k, n = k + 2 ∧ peg (k + 1) env g ⟨0, []⟩ .unit = .ok v s em ∧ env.toks[s.pos]? = none := by
+  unfold pegTop at h
+  match n with
+  | 0 => simp [peg] at h
+  | 1 => simp [peg, pegStep, SOut.andThen] at h
+  | k + 2 =>
+    refine ⟨k, rfl, ?_⟩
+    have e : peg (k + 2) env (.thenIgnore g .end_) ⟨0, []⟩ .unit =
+        (peg (k + 1) env g ⟨0, []⟩ .unit).andThen fun va s1 e1 =>
+          (peg (k + 1) env .end_ s1 .unit).andThen fun _ s2 e2 => .ok va s2 (e1 ++ e2) := rfl
+    rw [e] at h
+    cases hg : peg (k + 1) env g ⟨0, []⟩ .unit <;> rw [hg] at h <;> simp only [SOut.andThen] at h <;> try simp at h
+    rename_i v1 s1 e1
+    have e2 : peg (k + 1) env .end_ s1 .unit =
+        match env.toks[s1.pos]? with | none => .ok .unit s1 [] | some _ => .fail := rfl
+    rw [e2] at h
+    cases ht : env.toks[s1.pos]? <;> rw [ht] at h <;> simp at h
+    obtain ⟨h1, h2, h3⟩ := h
+    subst h1 h2 h3
+    exact ⟨by simp, ht⟩
+
+/-- **whole input.** An output with no errors means the grammar (not the harness) consumed every token:
+    in the PEG reading the grammar matches from 0 to a position where no token is left. -/
+theorem c03_whole_input (n : Nat) (env : Env) (m : Mode) (g : G) (hm : env.memoOn = false) (r : ParseResult) (f : St)
+    (h : parseTop n env m g = .result r f) (v : Val) (ho : r.output = some v) (he : r.errs = []) :
+    ∃ k v' s, n = k + 2 ∧ peg (k + 1) env g ⟨0, []⟩ .unit = .ok v' s [] ∧ v = m.bind v' ∧
+      env.toks[s.pos]? = none ∧ f.pos = s.pos := by
+  have ht := parseTop_refines n env m g hm
+  rw [h] at ht
+  cases hp : pegTop n env g <;> rw [hp] at ht <;> simp only [TopRefines] at ht
+  · rename_i v' s em
+    obtain ⟨h1, h2, h3, h4⟩ := ht
+    rw [he] at h4
+    have : f.errs = [] := by simpa using h4.symm
+    rw [this] at h3
+    have hem : em = [] := by
+      cases em with
+      | nil => rfl
+      | cons e es => simp [EmsRel] at h3
+    subst hem
+    obtain ⟨k, hk, hg, hend⟩ := pegTop_ok n env g hp
+    rw [ho] at h1
+    exact ⟨k, v', s, hk, hg, by simpa using h1, hend, by rw [← h2]; rfl⟩
+  · rw [ho] at ht; simp at ht
+
+/-- conversely, rejection (no output) means the PEG reading of "grammar then end" fails -/
+theorem c03_reject_iff (n : Nat) (env : Env) (m : Mode) (g : G) (hm : env.memoOn = false) (r : ParseResult) (f : St)
+    (h : parseTop n env m g = .result r f) : r.output = none ↔ pegTop n env g = .fail := by
+  have ht := parseTop_refines n env m g hm
+  rw [h] at ht
+  cases hp : pegTop n env g <;> rw [hp] at ht <;> simp only [TopRefines] at ht <;> simp
+  · rw [ht.1]; simp
+  · exact ht.1
+
+/-- `lazy()` is `then_ignore(any().repeated())` (`lib.rs:1700-1706`) -/
+def G.lazy (g : G) : G := .thenIgnore g (.iterP (.repeated .any 0 none))
+
+/-- **lazy.** If the lazy form matches, the grammar itself matched a prefix (with the same output and emissions). -/
+theorem c03_lazy_prefix (n : Nat) (env : Env) (g : G) (s : SS) (ctx : Val) {v s' em}
+    (h : peg (n + 1) env g.lazy s ctx = .ok v s' em) :
+    ∃ s1 e1, peg n env g s ctx = .ok v s1 e1 := by
+  simp only [G.lazy, peg, pegStep, SOut.andThen] at h
+  cases hg : peg n env g s ctx <;> simp [hg] at h
+  rename_i v1 s1 e1
+  cases hr : peg n env (.iterP (.repeated .any 0 none)) s1 ctx <;> simp [hr] at h
+  exact ⟨s1, e1, by rw [h.1]⟩
+
+/-- … and if the grammar fails at the start, so does the lazy form: nothing but the grammar decides acceptance. -/
+theorem c03_lazy_fail (n : Nat) (env : Env) (g : G) (s : SS) (ctx : Val)
+    (h : peg n env g s ctx = .fail) : peg (n + 1) env g.lazy s ctx = .fail := by
+  simp [G.lazy, peg, pegStep, SOut.andThen, h]
+
+/-- non-vacuity: a recovered parse has output *and* errors, and does not convert to `Ok` -/
+example :
+    (match parseTop 30 { toks := [98], memoOn := false } .emit (.recoverVia (.just [97]) (.to (.nat 9) .any)) with
+      | .result r _ => (r.output, r.errs.length, match r.intoResult with | .ok _ => true | .error _ => false)
+      | _ => (none, 99, true)) = (some (.nat 9), 1, false) := by
+  decide
+
+#print axioms c03_no_output_has_error
+#print axioms c03_error_free_has_output
+#print axioms c03_errors_never_ok
+#print axioms c03_error_free_ok
+#print axioms c03_whole_input
+#print axioms c03_reject_iff
+#print axioms c03_lazy_prefix
+#print axioms c03_lazy_fail
 end Chumsky
